@@ -1173,7 +1173,7 @@ pub fn bline_candidate_const_strategy() -> impl Strategy<Value = BLine> {
         id_strategy(),
         prop_oneof![Just('b'), Just('d'), Just('h')],
         prop_oneof![
-            3 => "[0-9a-fA-F-]{1,10}",
+            3 => "[0-9a-fA-F-]{0,10}",
             1 => "[0-2]{1,6}",
             1 => "[ -~]{1,4}",
             1 => "[0-9]{0,3}[²³٣]",
